@@ -13,6 +13,8 @@ import (
 	"github.com/shutter-network/shutter/shlib/shcrypto"
 
 	"github.com/shutter-network/rolling-shutter/rolling-shutter/keyper/database"
+	"github.com/shutter-network/rolling-shutter/rolling-shutter/keyperimpl/gnosis/gnosisssztypes"
+	"github.com/shutter-network/rolling-shutter/rolling-shutter/keyperimpl/shutterservice/serviceztypes"
 	"github.com/shutter-network/rolling-shutter/rolling-shutter/medley/identitypreimage"
 	"github.com/shutter-network/rolling-shutter/rolling-shutter/medley/testkeygen"
 	"github.com/shutter-network/rolling-shutter/rolling-shutter/p2pmsg"
@@ -20,6 +22,7 @@ import (
 	"verif/sim/ref"
 	"verif/sim/simkit"
 	"verif/sim/simnet"
+	"verif/sim/simtm"
 )
 
 func init() {
@@ -40,6 +43,8 @@ type c04World struct {
 	ek     map[uint64]*testkeygen.EonKeys
 	ids    [][]byte
 	other  *testkeygen.EonKeys
+	member map[uint64]bool
+	recv   int
 }
 
 func c04State(c *simkit.Chooser, label string) (dkgState, bool) {
@@ -64,10 +69,20 @@ func runC04(r *simkit.Run) {
 	recv := c.Intn(n, "receiver")
 	w := newWorldC(r, n, t, simnet.Config{MinDelay: time.Millisecond, MaxDelay: 5 * time.Millisecond})
 	defer w.close()
-	cw := &c04World{w: w, ek: map[uint64]*testkeygen.EonKeys{}}
+	// the flavours put their own validators in front of the core ones; the core rules must
+	// hold behind them all the same
+	w.fl = []flavour{flCore, flGnosis, flService}[c.Weighted([]int{2, 1, 1}, "flavour")]
+	cw := &c04World{w: w, ek: map[uint64]*testkeygen.EonKeys{}, member: map[uint64]bool{}, recv: recv}
 	cw.st = &ref.ReceiverState{InstanceID: cInstanceID, MaxKeys: 8, Configs: map[uint64]*ref.ConfigState{}}
 	for i := 0; i < 3; i++ {
-		cw.ids = append(cw.ids, []byte(fmt.Sprintf("id-%d", i)))
+		id := []byte(fmt.Sprintf("id-%d", i))
+		switch w.fl {
+		case flGnosis: // 52-byte identities (prefix + sender)
+			id = append(id, make([]byte, 52-len(id))...)
+		case flService: // 32 bytes
+			id = append(id, make([]byte, 32-len(id))...)
+		}
+		cw.ids = append(cw.ids, id)
 	}
 	var err error
 	cw.other, err = testkeygen.NewEonKeys(rand.Reader, uint64(n), uint64(t))
@@ -86,6 +101,7 @@ func runC04(r *simkit.Run) {
 				}
 			}
 			cw.ek[kci] = ek
+			cw.member[kci] = member
 			w.provisionConfig(nd, int64(kci), int64(kci*10), state, member, ek)
 			cs := &ref.ConfigState{IsMember: member, NewestSucceeded: state == dkgSuccess, N: n, PublicKey: ek.EonPublicKey(), StoredKeys: map[string][]byte{}}
 			for i := 0; i < n; i++ {
@@ -113,8 +129,9 @@ func runC04(r *simkit.Run) {
 	}
 	nd := w.addNode("recv", recv, dkgSuccess, nil)
 	cw.nd = nd
-	r.Eventf("n=%d t=%d receiver=%d set1{%s} set2{%s}", n, t, recv, states[1], states[2])
-	r.Sample["receiver"] = fmt.Sprintf("n=%d t=%d set1{%s} set2{%s}", n, t, states[1], states[2])
+	r.Eventf("flavour=%s n=%d t=%d receiver=%d set1{%s} set2{%s}", w.fl, n, t, recv, states[1], states[2])
+	r.Sample["receiver"] = fmt.Sprintf("flavour=%s n=%d t=%d set1{%s} set2{%s}", w.fl, n, t, states[1], states[2])
+	r.Probe("flavour-" + w.fl.String())
 	w.net.ValidatorPanic = func(rcv *simnet.Node, p *simnet.Published, e any) {
 		r.FailNoAbort("validator-panic", p.Topic, "validator of %s panicked on message #%d: %v", rcv.Name, p.ID, e)
 	}
@@ -160,6 +177,7 @@ func runC04(r *simkit.Run) {
 			}
 		} else {
 			r.Probe("accepted")
+			r.Probe("accepted-" + w.fl.String())
 			// handler ran: update ground truth of stored keys from the database
 			for kci, cs := range cw.st.Configs {
 				_ = kci
@@ -369,6 +387,9 @@ func (cw *c04World) genMessage(c *simkit.Chooser) (topic string, data []byte, wa
 			}
 			desc += " +count-max+1"
 		case 11:
+			if w.fl != flCore {
+				break // a flavour receiver gets the flavour's extra below
+			}
 			if isKeys {
 				km.Extra = &p2pmsg.DecryptionKeys_Gnosis{Gnosis: &p2pmsg.GnosisDecryptionKeysExtra{Slot: 1, TxPointer: 2, SignerIndices: []uint64{0}, Signatures: [][]byte{{1}}}}
 			} else {
@@ -389,6 +410,19 @@ func (cw *c04World) genMessage(c *simkit.Chooser) (topic string, data []byte, wa
 		want, why = ref.AcceptKeys(cw.st, km)
 	} else {
 		want, why = ref.AcceptShares(cw.st, sh)
+	}
+	if w.fl != flCore {
+		// the flavour's own validator is satisfied whenever that is possible at all (genuine
+		// signatures of the listed keypers over the message's final fields), so that the core
+		// rule is what decides
+		if ok, fwhy := cw.attachFlavourExtra(c, sh, km); !ok {
+			if want {
+				why = "flavour validator: " + fwhy
+			}
+			want = false
+		} else {
+			desc += " +valid-" + w.fl.String() + "-extra"
+		}
 	}
 	var msg p2pmsg.Message = sh
 	if isKeys {
@@ -418,4 +452,99 @@ func (cw *c04World) genMessage(c *simkit.Chooser) (topic string, data []byte, wa
 	_ = sort.Strings
 	_ = shcrypto.KeyperX
 	return
+}
+
+// signerKey is the key of keyper index i in keyper set kci as provisioned on the receiver.
+func (cw *c04World) signerKey(kci uint64, i int) *simtm.Key {
+	if !cw.member[kci] && i == cw.recv {
+		return simtm.DetKey(fmt.Sprintf("replacement-%d", i))
+	}
+	return simtm.DetKey(fmt.Sprintf("keyper-%d", i))
+}
+
+// attachFlavourExtra gives the message the Gnosis / service extra its flavour validator asks
+// for. It reports false (and attaches a well-typed but unsatisfiable extra) when the flavour's
+// own rules cannot be met by anybody: unknown keyper set, sender index out of range, identities
+// that do not fit the signed container, no keys.
+func (cw *c04World) attachFlavourExtra(c *simkit.Chooser, sh *p2pmsg.DecryptionKeyShares, km *p2pmsg.DecryptionKeys) (bool, string) {
+	w := cw.w
+	slot, txp := uint64(7), uint64(c.Intn(3, "extra-txpointer"))
+	sign := func(k *simtm.Key, inst, eon uint64, idl [][]byte) ([]byte, error) {
+		var pre []identitypreimage.IdentityPreimage
+		for _, id := range idl {
+			pre = append(pre, identitypreimage.IdentityPreimage(id))
+		}
+		if w.fl == flGnosis {
+			d, err := gnosisssztypes.NewSlotDecryptionSignatureData(inst, eon, slot, txp, pre)
+			if err != nil {
+				return nil, err
+			}
+			return d.ComputeSignature(k.Priv)
+		}
+		d, err := serviceztypes.NewDecryptionSignatureData(inst, eon, pre)
+		if err != nil {
+			return nil, err
+		}
+		return d.ComputeSignature(k.Priv)
+	}
+	if sh != nil {
+		var ids [][]byte
+		for _, s := range sh.Shares {
+			ids = append(ids, s.IdentityPreimage)
+		}
+		ok, why := true, ""
+		sig := []byte{1}
+		switch {
+		case sh.Eon != 1 && sh.Eon != 2:
+			ok, why = false, "unknown keyper set"
+		case sh.KeyperIndex >= uint64(w.n):
+			ok, why = false, "sender index out of range"
+		default:
+			var err error
+			sig, err = sign(cw.signerKey(sh.Eon, int(sh.KeyperIndex)), sh.InstanceId, sh.Eon, ids)
+			if err != nil {
+				ok, why, sig = false, "signed container: "+err.Error(), []byte{1}
+			}
+		}
+		if w.fl == flGnosis {
+			sh.Extra = &p2pmsg.DecryptionKeyShares_Gnosis{Gnosis: &p2pmsg.GnosisDecryptionKeySharesExtra{Slot: slot, TxPointer: txp, Signature: sig}}
+		} else {
+			sh.Extra = &p2pmsg.DecryptionKeyShares_Service{Service: &p2pmsg.ShutterServiceDecryptionKeySharesExtra{Signature: sig}}
+		}
+		return ok, why
+	}
+	var ids [][]byte
+	for _, k := range km.Keys {
+		ids = append(ids, k.IdentityPreimage)
+	}
+	ok, why := true, ""
+	var signers []uint64
+	var sigs [][]byte
+	switch {
+	case km.Eon != 1 && km.Eon != 2:
+		ok, why = false, "unknown keyper set"
+	case len(km.Keys) == 0:
+		ok, why = false, "no keys"
+	default:
+		perm := c.Perm(w.n, "extra-signers")[:w.t]
+		sort.Ints(perm)
+		for _, i := range perm {
+			sig, err := sign(cw.signerKey(km.Eon, i), km.InstanceId, km.Eon, ids)
+			if err != nil {
+				ok, why = false, "signed container: "+err.Error()
+				break
+			}
+			signers = append(signers, uint64(i))
+			sigs = append(sigs, sig)
+		}
+	}
+	if !ok {
+		signers, sigs = []uint64{0}, [][]byte{{1}}
+	}
+	if w.fl == flGnosis {
+		km.Extra = &p2pmsg.DecryptionKeys_Gnosis{Gnosis: &p2pmsg.GnosisDecryptionKeysExtra{Slot: slot, TxPointer: txp, SignerIndices: signers, Signatures: sigs}}
+	} else {
+		km.Extra = &p2pmsg.DecryptionKeys_Service{Service: &p2pmsg.ShutterServiceDecryptionKeysExtra{SignerIndices: signers, Signature: sigs}}
+	}
+	return ok, why
 }
